@@ -2,6 +2,7 @@ package main
 
 import (
 	"encoding/hex"
+	"encoding/json"
 	"fmt"
 	"math/rand"
 	"os"
@@ -29,6 +30,7 @@ type fswriteStream struct{}
 func init() {
 	register(fswriteStream{})
 	childModes["writespec"] = childWriteSpec
+	childModes["writespecmount"] = childWriteSpecMount
 }
 
 func (fswriteStream) Name() string          { return "fswrite" }
@@ -49,6 +51,48 @@ func variantSpec(v string) *specs.Spec {
 				Mounts: []*specs.Mount{{HostPath: "/host/" + v, ContainerPath: fmt.Sprintf("/c/%d", i)}}}})
 	}
 	return s
+}
+
+// childWriteSpecMount (run under `unshare -m`): the Spec name is a bind mount of a file on a 16 KiB tmpfs
+// holding a small previous Spec; a large Spec is written under that name.
+func childWriteSpecMount(args []string) int {
+	root, name := args[0], args[1]
+	fail := func() int { fmt.Println(`{"skipped": true}`); return 0 }
+	_ = syscall.Mount("", "/", "", syscall.MS_REC|syscall.MS_PRIVATE, "")
+	backing, dir := filepath.Join(root, "backing"), filepath.Join(root, "cdi")
+	_ = os.MkdirAll(backing, 0o755)
+	_ = os.MkdirAll(dir, 0o755)
+	if err := syscall.Mount("tmpfs", backing, "tmpfs", 0, "size=16k"); err != nil {
+		return fail()
+	}
+	defer syscall.Unmount(backing, 0)
+	prevCache, _ := cdi.NewCache(cdi.WithSpecDirs(backing), cdi.WithAutoRefresh(false))
+	if prevCache.WriteSpec(variantSpec("A"), name) != nil {
+		return fail()
+	}
+	prev, _ := os.ReadFile(filepath.Join(backing, name))
+	target := filepath.Join(dir, name)
+	_ = os.WriteFile(target, nil, 0o644)
+	if err := syscall.Mount(filepath.Join(backing, name), target, "", syscall.MS_BIND, ""); err != nil {
+		return fail()
+	}
+	defer syscall.Unmount(target, 0)
+	cache, _ := cdi.NewCache(cdi.WithSpecDirs(dir), cdi.WithAutoRefresh(false))
+	big := variantSpec("B")
+	for i := range big.Devices {
+		big.Devices[i].ContainerEdits.Env = append(big.Devices[i].ContainerEdits.Env, "PAD="+strings.Repeat("p", 1500))
+	}
+	werr := cache.WriteSpec(big, name)
+	now, _ := os.ReadFile(target)
+	status := "partial"
+	if string(now) == string(prev) {
+		status = "previous"
+	} else if got, err := cdi.ReadSpec(target, 0); err == nil && protoJSON(got.Spec) == protoJSON(big) {
+		status = "new"
+	}
+	b, _ := json.Marshal(map[string]any{"err": werr != nil, "status": status})
+	fmt.Println(string(b))
+	return 0
 }
 
 // childWriteSpec: corr child writespec <dir> <name> <variant> <killat|-> <fsize|-1>
@@ -139,6 +183,11 @@ func (fswriteStream) Generate(rng *rand.Rand, tier string, emit func(Case)) {
 	}
 	for r := 0; r < rounds; r++ {
 		emit(Case{"op": "readers", "name": names[r%2], "millis": 400})
+	}
+	// the target is itself a mount point (a single file bind-mounted from a nearly full file system): rename fails
+	// with EBUSY, nothing may be written in place
+	for _, name := range []string{"vendor.json", "vendor.yaml"} {
+		emit(Case{"op": "mountpoint", "name": name})
 	}
 	// a second writer (of another Spec name) gets in between every pair of steps of the first: each file must
 	// end up with what its own writer wrote
@@ -267,6 +316,21 @@ func (fswriteStream) Execute(c Case) {
 	defer os.RemoveAll(fswriteRoot)
 	op, _ := c["op"].(string)
 	switch op {
+	case "mountpoint":
+		self, _ := os.Executable()
+		root := fswriteRoot + "-mnt"
+		_ = os.MkdirAll(root, 0o755)
+		defer os.RemoveAll(root)
+		out, err := exec.Command("unshare", "-m", self, "child", "writespecmount", root, c["name"].(string)).Output()
+		var res map[string]any
+		if err != nil || json.Unmarshal(out, &res) != nil || res["skipped"] == true {
+			skip("private mount namespace not available")
+			obs["err"], obs["status"], obs["skipped"] = true, "previous", true
+		} else {
+			obs["err"], obs["status"] = res["err"], res["status"]
+		}
+		c["before"], c["dst"], c["new"] = []any{}, hx(c["name"].(string)), hx("")
+		return
 	case "twowriters":
 		dir := filepath.Join(fswriteRoot, "cdi")
 		_ = os.MkdirAll(dir, 0o755)
